@@ -174,6 +174,37 @@ def family_options(m, tier, add_bench, open_mod, close_mod):
             add_bench(m, pt, 8, "parse", form="bencher")
             add_bench(m, pt, 8, "skipped", form="bencher", options=[("sample_count", "1"), ("sample_size", "1")])
         close_mod(m, 4)
+    # time options in every attribute spelling (Duration, float seconds), at benchmark and group level;
+    # under the virtual clock a call costs exactly `cost` ticks, so the number of rounds is exact
+    g = open_mod(m, path, 4, "tim", group={"options": [("sample_size", "1"), ("sample_count", "1000")]})
+    D = "std::time::Duration::from_nanos(%d)"
+    add_bench(m, g, 8, "max_dur", form="bencher", options=[("max_time", D % 7)], cost=1000)
+    add_bench(m, g, 8, "max_float", form="bencher", options=[("max_time", "0.0000000074")], cost=1000)
+    add_bench(m, g, 8, "max_float_size2", form="bencher", options=[("max_time", "0.0000000094"), ("sample_size", "2")], cost=1000)
+    add_bench(m, g, 8, "min_dur", form="bencher", options=[("min_time", D % 9), ("sample_count", "2")], cost=1000)
+    add_bench(m, g, 8, "min_float", form="bencher", options=[("min_time", "0.0000000044"), ("sample_count", "1"), ("sample_size", "2")], cost=1000)
+    add_bench(m, g, 8, "min_over_max", form="bencher", options=[("min_time", D % 9), ("max_time", D % 5)], cost=1000)
+    add_bench(m, g, 8, "min_below_count", form="bencher", options=[("min_time", D % 2), ("sample_count", "4")], cost=1000)
+    add_bench(m, g, 8, "ext_counted", form="bencher", bencher_style="values_costly", options=[("max_time", D % 10)], cost=1000)
+    add_bench(m, g, 8, "ext_skipped_flag", form="bencher", bencher_style="values_costly", options=[("max_time", D % 10), ("skip_ext_time", None)], cost=1000)
+    add_bench(m, g, 8, "ext_skipped_true", form="bencher", bencher_style="values_costly", options=[("max_time", D % 10), ("skip_ext_time", "true")], cost=1000)
+    add_bench(m, g, 8, "ext_skip_false", form="bencher", bencher_style="values_costly", options=[("max_time", D % 10), ("skip_ext_time", "false")], cost=1000)
+    gt = open_mod(m, g, 8, "grp_max", group={"options": [("max_time", D % 4), ("skip_ext_time", None)]})
+    add_bench(m, gt, 12, "inherits", form="bencher", cost=1000)
+    add_bench(m, gt, 12, "own_max", form="bencher", options=[("max_time", D % 6)], cost=1000)
+    add_bench(m, gt, 12, "own_skip_false", form="bencher", bencher_style="values_costly", options=[("skip_ext_time", "false")], cost=1000)
+    add_bench(m, gt, 12, "inherits_skip", form="bencher", bencher_style="values_costly", cost=1000)
+    gm = open_mod(m, gt, 12, "inner_min", group={"options": [("min_time", "0.0000000084"), ("sample_count", "1")]})
+    add_bench(m, gm, 16, "min_and_outer_max", form="bencher", cost=1000)
+    close_mod(m, 12)
+    close_mod(m, 8)
+    close_mod(m, 4)
+    # automatic sample size with a budget that runs out during / after tuning
+    g = open_mod(m, path, 4, "tim_tuned", group={"options": [("sample_count", "3")]})
+    add_bench(m, g, 8, "cut_in_tuning", form="bencher", options=[("max_time", D % 20)], cost=1500)
+    add_bench(m, g, 8, "cut_after_tuning", form="bencher", options=[("max_time", D % 400)], cost=1500)
+    add_bench(m, g, 8, "min_after_tuning", form="bencher", options=[("min_time", D % 700), ("sample_count", "1")], cost=1500)
+    close_mod(m, 4)
     g = open_mod(m, path, 4, "zero", group={"options": [("sample_size", "2")]})
     add_bench(m, g, 8, "count_zero", form="bencher", options=[("sample_count", "0")])
     add_bench(m, g, 8, "size_zero", form="bencher", options=[("sample_size", "0")])
